@@ -76,7 +76,27 @@ def r1(ctx):
                                                                            repo.call_target(fi.module, fi, c) == "os.utime") for n in nodes_with(fi, c)]
     pth = gi.must_pass(gi.entry, stamps, follow_exc=False) if stamps else gi.path(gi.entry, [gi.exit], follow_exc=False)
     wall = set(q for q in wclk if q in ("time.time",))
-    ctx.check("C11.R1", (pth is None and bool(stamps)) or bool(wall), key(fi, "initial-timestamp-on-scanner-clock"), site(fi),
+    by_owner = False
+    if not (pth is None and bool(stamps)):
+        # ... or by whoever builds the object, right there: every constructor call `X = WorkerTmp(..)` in the package is
+        # followed, on every path to the end of the constructing function (which runs in the master, before the fork), by
+        # `X.notify()`
+        sites_ = []
+        for ff in repo.funcs():
+            for c in walk_own(ff.node):
+                if isinstance(c, ast.Call) and repo.call_target(ff.module, ff, c) in (TMP, TMP + ".__init__"):
+                    sites_.append((ff, c))
+        okk = bool(sites_)
+        for ff, c in sites_:
+            ff = ctx.fn(ff)
+            st = ff.module.enclosing(c, ast.Assign)
+            tgt = norm(st.targets[0]) if st is not None and len(st.targets) == 1 else None
+            beats = [n for cc in walk_own(ff.node) if isinstance(cc, ast.Call) and isinstance(cc.func, ast.Attribute) and cc.func.attr == "notify" and norm(cc.func.value) == tgt for n in nodes_with(ff, cc)]
+            here = nodes_with(ff, c)
+            if not (tgt and beats and here) or any(ff.cfg.path(b, [ff.cfg.exit], without_nodes=beats, follow_exc=False) is not None for h in here for b, l in h.out if l != "exc" and b not in beats):
+                okk = False
+        by_owner = okk
+    ctx.check("C11.R1", (pth is None and bool(stamps)) or bool(wall) or by_owner, key(fi, "initial-timestamp-on-scanner-clock"), site(fi),
               "WorkerTmp.__init__ returns with the heartbeat file still carrying the wall-clock mtime mkstemp gave it, while notify() writes and murder_workers() reads %s: "
               "`clock() - last_update()` is hugely negative until the first notify(), so a worker that hangs while it boots is never timed out (with workers=1 the service is dead without a log line)" % sorted(wclk),
               "the file is stamped with the heartbeat clock before the worker exists", path=pth and gi.fmt_path(pth))
